@@ -121,12 +121,14 @@ Reqs(d, f, flt) == IF f.req THEN {[d |-> d, urlok |-> TRUE,
                    ELSE {}
 
 Step == n < MaxSteps /\ n' = n + 1
+LastIsPublish(d) == IF hist = <<>> THEN FALSE
+                    ELSE LET h == hist[Len(hist)] IN IF h.a = "Publish" THEN h.d = d ELSE FALSE
 
 Publish(d, txt, pol) ==
   /\ Step /\ ~Due
   /\ pub[d] # [txt |-> txt, pol |-> pol]
   \* generation only: publishing twice in a row for one domain is the same as publishing once
-  /\ Gen => (hist = <<>> \/ hist[Len(hist)].a # "Publish" \/ hist[Len(hist)].d # d)
+  /\ ~(Gen /\ LastIsPublish(d))
   /\ pub' = [pub EXCEPT ![d] = [txt |-> txt, pol |-> pol]]
   /\ obs' = ObsPublish(obs, d, txt, pol)
   /\ hist' = H([a |-> "Publish", d |-> d, txt |-> txt, ver |-> pol.ver, age |-> pol.age])
@@ -195,7 +197,7 @@ Corrupt(d, kind) ==
 Finish ==
   /\ n \in {MaxSteps, MaxSteps + 1} /\ ~Due
   /\ n' = MaxSteps + 2
-  /\ obs' = ObsEnd(obs)
+  /\ obs' = ObsEnd(obs, FALSE)
   /\ hist' = H([a |-> "End"])
   /\ IF Gen THEN PrintT(<<"BEH", ToJson([cfg |-> cfg, hist |-> hist'])>>) ELSE TRUE
   /\ UNCHANGED <<cfg, now, pub, store, nextRef, taken>>
